@@ -44,7 +44,7 @@ def budget(tier):
     ex = int(os.environ.get("VERIF_EXAMPLES", "0"))
     if tier == "quick":
         return dict(shards=16, examples=ex or 40, shrink_calls=30, shard_timeout=1500, time_budget=100)
-    return dict(shards=16, examples=ex or 1200, shrink_calls=400, shard_timeout=6 * 3600)
+    return dict(shards=16, examples=ex or 5000, shrink_calls=400, shard_timeout=6 * 3600, time_budget=1500)
 
 
 def _polymul(p, q):
